@@ -100,6 +100,8 @@ var st = &state{hashes: map[uint64]struct{}{}, viol: map[string]violationRec{}}
 // runs, so a case that kills the process (fatal error, OOM) can be identified.
 var TraceCurrent = true
 
+var slowCases int
+
 var collectMode = os.Getenv("VERIF_COLLECT") != ""
 
 // Env
@@ -324,7 +326,15 @@ func NewSub[C any](name string, quick, thorough int, gen func(*rapid.T) C, check
 				_ = os.WriteFile(filepath.Join(WorkDir(), "cur.json"), b, 0o644)
 			}
 		}
+		t0 := time.Now()
 		v := safeCheck(check, c)
+		if d := time.Since(t0); d > 5*time.Second {
+			// a case this slow is worth knowing about (it is the first suspect when a shard runs out of memory or time)
+			if b, err := json.Marshal(map[string]interface{}{"property": Property, "sub": name, "case": c, "seconds": d.Seconds()}); err == nil {
+				slowCases++
+				_ = os.WriteFile(filepath.Join(WorkDir(), fmt.Sprintf("slowcase-%d.json", slowCases)), b, 0o644)
+			}
+		}
 		if fail, p := record(name, c, v); fail {
 			if v.NoShrink {
 				fmt.Printf("VIOLATES %s/%s (not shrunk): %s\nreplay=%s\n", Property, name, v.Msg, p)
